@@ -604,12 +604,12 @@ def lin(t):
                 if m[0] == "c":
                     mv = m[1]
                     if mv >= 0 and (mv + 1) & mv == 0:
-                        return Lin(0, {("rem", canon(x), mv + 1): 1})
+                        return _rem_lin(x, mv + 1)
                     inv = (~mv) & ((1 << 64) - 1)
                     if (inv + 1) & inv == 0:
                         return lin(x).add(Lin(0, {("rem", canon(x), inv + 1): 1}), -1)
         if op == "Rem" and t[3][0] == "c" and t[3][1] > 0:
-            return Lin(0, {("rem", canon(t[2]), t[3][1]): 1})
+            return _rem_lin(t[2], t[3][1])
         if op == "Div" and t[3][0] == "c" and t[3][1] > 0:
             return Lin(0, {("div", canon(t[2]), t[3][1]): 1})
         if op == "Rem":
@@ -635,6 +635,16 @@ def lin(t):
             return lin(x[3]).add(lin(x[2]), -1)
         if x[0] == "rawslice" and len(x) > 2:
             return lin(x[2])          # slice::from_raw_parts(p, n).len() == n
+        if x[0] == "fld" and x[2] == 0 and x[1][0] == "dc" and x[1][2] == 1 and x[1][1][0] == "call" and cn(x[1][1][1]) == "core::slice::get" and \
+                len(x[1][1][2]) == 2 and x[1][1][2][1][0] == "aggr" and x[1][1][2][1][1][0] == "adt":
+            # the Some payload of s.get(range): std contract - the sub-slice of exactly that range
+            rk, ops = x[1][1][2][1][1][1].rsplit("::", 1)[1], x[1][1][2][1][2]
+            if rk == "RangeFrom":
+                return lin(("len", x[1][1][2][0])).add(lin(ops[0]), -1)
+            if rk == "RangeTo":
+                return lin(ops[0])
+            if rk == "Range":
+                return lin(ops[1]).add(lin(ops[0]), -1)
         if x[0] == "call" and len(x[2]) == 2 and str(x[1]).startswith("core::slice::index::<impl core::ops::index::Index<core::ops::range::") and \
                 x[2][1][0] == "aggr" and x[2][1][1][0] == "adt":
             rk, ops = x[2][1][1][1].rsplit("::", 1)[1], x[2][1][2]
@@ -656,6 +666,18 @@ def lin(t):
         y = ("bin", "Add", t[2][0], ("c", c - 1), t[3] if len(t) > 3 else None)
         return lin(y).add(Lin(0, {("rem", canon(y), c): 1}), -1)
     return Lin(0, {strip(t): 1})
+
+
+def _rem_lin(x, m):
+    """x mod m as a linear form over `rem` atoms.  The padding idiom (k*m - (y mod m)) mod m - the bytes missing from y to the next
+    multiple of m - is rewritten to (m-1) - ((y + m-1) mod m), so that y + padding(y) and (y + m-1) - (y + m-1) mod m coincide"""
+    lx = lin(x)
+    if len(lx.m) == 1 and lx.c % m == 0:
+        (a, v), = lx.m.items()
+        if v == -1 and isinstance(a, tuple) and a[0] == "rem" and a[2] == m and isinstance(a[1], tuple) and a[1][:1] == ("lin",):
+            y1 = Lin(a[1][1], dict(a[1][2])).add(Lin(m - 1))
+            return Lin(m - 1).add(Lin(0, {("rem", ("lin",) + y1.key(), m): 1}), -1)
+    return Lin(0, {("rem", ("lin",) + lx.key(), m): 1})
 
 
 def canon(t):
